@@ -116,7 +116,7 @@ def join_b(x, y, nlo, widen=False, nx=None, ny=None):
 
 
 class State:
-    __slots__ = ('r', 'nlo', 'nhi', 'nmod', 'fl', 'slots')
+    __slots__ = ('r', 'nlo', 'nhi', 'nmod', 'fl', 'slots', 'rel', 'gm', 'km')
 
     def __init__(self):
         self.r = {}
@@ -125,16 +125,20 @@ class State:
         self.nmod = (1, 0)
         self.fl = None
         self.slots = {}
+        self.rel = {}      # (r1, r2) -> (c, k):  r1 + r2 == c + k*N
+        self.gm = {}       # gpr -> ('pow2' | 'low', count register): 1 << count, or the count low bits set
+        self.km = {}       # k register -> count register: mask of `count` low bits
 
     def copy(self):
         s = State()
         s.r = dict(self.r)
         s.nlo, s.nhi, s.nmod, s.fl = self.nlo, self.nhi, self.nmod, self.fl
         s.slots = dict(self.slots)
+        s.rel, s.gm, s.km = dict(self.rel), dict(self.gm), dict(self.km)
         return s
 
     def key(self):
-        return (tuple(sorted(self.r.items(), key=lambda kv: kv[0])), self.nlo, self.nhi, self.nmod, self.fl, tuple(sorted(self.slots.items())))
+        return (tuple(sorted(self.r.items(), key=lambda kv: kv[0])), self.nlo, self.nhi, self.nmod, self.fl, tuple(sorted(self.slots.items())), tuple(sorted(self.rel.items())), tuple(sorted(self.gm.items())), tuple(sorted(self.km.items())))
 
 
 class Bounds:
@@ -157,13 +161,24 @@ class Bounds:
         e = v.exact()
         return EX(e[0], e[1], st.nmod) if e is not None else v
 
-    def setr(self, st, reg, val):
+    def setr(self, st, reg, val, shift=None):
+        """shift: the new value is the old one plus this constant (relations with other registers are adjusted instead of dropped)"""
         if val == TOPB:
             st.r.pop(reg, None)
         else:
             st.r[reg] = val
         if st.fl and reg in st.fl[3]:
             st.fl = None
+        for key in [k for k in st.rel if reg in k]:
+            if shift is None or key[0] == key[1]:
+                del st.rel[key]
+            else:
+                c, k = st.rel[key]
+                st.rel[key] = (c + shift, k)
+        for g in [g for g, v in st.gm.items() if g == reg or v[1] == reg]:
+            del st.gm[g]
+        for kk in [kk for kk, v in st.km.items() if v == reg]:
+            del st.km[kk]
 
     def add(self, st, x, y, sign=1):
         if sign == 1:
@@ -265,6 +280,22 @@ class Bounds:
 
     def close(self, st):
         """derived facts: constant bounds implied by N-relative ones (N >= nlo), N-facts implied by lo <= hi, bounds re-tightened to the congruence"""
+        for (r1, r2), S in st.rel.items():
+            for a, b in ((r1, r2), (r2, r1)):
+                va, vb = st.r.get(a, TOPB), st.r.get(b, TOPB)
+                if va.exact() is not None and va.exact()[1] != 0:
+                    continue
+                hi = set(va.hi) | {(S[0] - l[0], S[1] - l[1]) for l in vb.lo}
+                lo = set(va.lo) | {(S[0] - u_[0], S[1] - u_[1]) for u_ in vb.hi}
+                hi = {x for x in hi if abs(x[1]) <= 2}
+                lo = {x for x in lo if abs(x[1]) <= 2}
+                nv = B(prune_lo(lo, st.nlo), prune_hi(hi, st.nlo), va.mod)
+                if len(nv.lo) > 6:
+                    nv = B(frozenset(sorted(nv.lo)[-6:]), nv.hi, nv.mod)
+                if len(nv.hi) > 6:
+                    nv = B(nv.lo, frozenset(sorted(nv.hi)[:6]), nv.mod)
+                if nv != TOPB:
+                    st.r[a] = nv
         for _ in range(2):
             for r, v in list(st.r.items()):
                 for l in v.lo:
@@ -386,6 +417,14 @@ class Bounds:
         g = REG64.get(ops[0]) if ops and not is_mem(ops[0]) else None
         src = ops[1] if len(ops) > 1 else None
         regs_of = lambda *os: frozenset(REG64[o][0] for o in os if o in REG64)
+        if mn.startswith('kmov') and len(ops) == 2 and re.match(r'^k[0-7]$', ops[0]):
+            st.km.pop(ops[0], None)
+            if src in REG64 and st.gm.get(REG64[src][0], (None,))[0] == 'low':
+                st.km[ops[0]] = st.gm[REG64[src][0]][1]
+            return
+        if ops and re.match(r'^k[0-7]$', ops[0]):
+            st.km.pop(ops[0], None)
+            return
         if mn == 'cmp' and len(ops) == 2:
             A = ('r', REG64[ops[0]][0]) if ops[0] in REG64 and REG64[ops[0]][1] >= 32 else None
             Bd = ('r', REG64[src][0]) if src in REG64 and REG64[src][1] >= 32 else (('k', imm(src)) if IMM.match(src) else None)
@@ -445,16 +484,25 @@ class Bounds:
                         v = TOPB
                         break
                     v = self.add(st, v, self.scale(self.get(st, r), s))
-            self.setr(st, d, v)
+            sh = None
+            if m['base'] in REG64 and REG64[m['base']][0] == d and not m['index']:
+                sh = m['disp'] or 0
+            self.setr(st, d, v, shift=sh)
             return
         if mn in ('add', 'sub') and len(ops) == 2 and not is_mem(src):
+            gmold = st.gm.get(d)
             v = self.add(st, self.get(st, ops[0]), self.get(st, src), 1 if mn == 'add' else -1)
-            self.setr(st, d, v)
+            self.setr(st, d, v, shift=(imm(src) * (1 if mn == 'add' else -1)) if IMM.match(src) else None)
+            if gmold and gmold[0] == 'pow2' and mn == 'sub' and IMM.match(src) and imm(src) == 1:
+                st.gm[d] = ('low', gmold[1])
             st.fl = ('cmp', ('r', d), ('k', 0), frozenset([d])) if mn == 'sub' or True else None
             return
         if mn in ('inc', 'dec') and len(ops) == 1:
+            gmold = st.gm.get(d)
             v = self.add(st, self.get(st, ops[0]), EX(1, 0, st.nmod), 1 if mn == 'inc' else -1)
-            self.setr(st, d, v)
+            self.setr(st, d, v, shift=1 if mn == 'inc' else -1)
+            if gmold and gmold[0] == 'pow2' and mn == 'dec':
+                st.gm[d] = ('low', gmold[1])
             st.fl = ('cmp', ('r', d), ('k', 0), frozenset([d]))
             return
         if mn == 'xor' and len(ops) == 2 and ops[0] == src:
@@ -512,6 +560,22 @@ class Bounds:
             return
         if mn.startswith('set'):
             self.setr(st, d, TOPB)
+            return
+        if mn == 'bts' and len(ops) == 2 and src in REG64 and self.get(st, ops[0]).exact() == (0, 0):
+            cnt = REG64[src][0]
+            self.setr(st, d, TOPB)
+            st.gm[d] = ('pow2', cnt)
+            st.fl = None
+            return
+        if mn == 'bzhi' and len(ops) == 3 and ops[2] in REG64 and self.get(st, ops[1]).exact() == (-1, 0):
+            cnt = REG64[ops[2]][0]
+            self.setr(st, d, TOPB)
+            st.gm[d] = ('low', cnt)
+            st.fl = None
+            return
+        if mn == 'or' and len(ops) == 2 and IMM.match(src) and imm(src) == -1:
+            self.setr(st, d, EX(-1, 0, st.nmod))
+            st.fl = None
             return
         _, defs = regdef.def_use(i)
         for r in set(defs) | {d}:
@@ -577,6 +641,35 @@ class Bounds:
             j = join_b(old.slots[k], s.slots[k], new.nlo, widen, old.nlo, s.nlo)
             if j != TOPB:
                 new.slots[k] = j
+        # relations between two registers: kept when both sides agree, or created when both registers are exact on both
+        # sides with the same sum (the classic pair: position counted up, remaining length counted down)
+        for key in set(old.rel) | set(s.rel):
+            vo, vs = old.rel.get(key), s.rel.get(key)
+            for x, other in ((vo, s), (vs, old)):
+                if x is None:
+                    continue
+            def val(state, key):
+                if key in state.rel:
+                    return state.rel[key]
+                a, b = state.r.get(key[0], TOPB).exact(), state.r.get(key[1], TOPB).exact()
+                return (a[0] + b[0], a[1] + b[1]) if a is not None and b is not None else None
+            a_, b_ = val(old, key), val(s, key)
+            if a_ is not None and a_ == b_:
+                new.rel[key] = a_
+        ex_o = {r: v.exact() for r, v in old.r.items() if v.exact() is not None}
+        ex_s = {r: v.exact() for r, v in s.r.items() if v.exact() is not None}
+        both = sorted(set(ex_o) & set(ex_s))
+        for x in range(len(both)):
+            for y in range(x + 1, len(both)):
+                r1, r2 = both[x], both[y]
+                if ex_o[r1] == ex_s[r1] or ex_o[r2] == ex_s[r2]:
+                    continue
+                so = (ex_o[r1][0] + ex_o[r2][0], ex_o[r1][1] + ex_o[r2][1])
+                ss = (ex_s[r1][0] + ex_s[r2][0], ex_s[r1][1] + ex_s[r2][1])
+                if so == ss:
+                    new.rel[(r1, r2)] = so
+        new.gm = {k: v for k, v in old.gm.items() if s.gm.get(k) == v}
+        new.km = {k: v for k, v in old.km.items() if s.km.get(k) == v}
         if new.key() != old.key():
             self.IN[n] = new
             work.append(n)
@@ -619,6 +712,26 @@ class Bounds:
         off, st = r
         W = acc.size or 1
         lo_ok = any(le((0, 0), l, st.nlo) for l in off.lo)
+        mk = re.search(r'\{(k[1-7])\}', acc.insn.text)
+        if mk:
+            # masked access: the bytes touched are those selected by the mask; a mask of `cnt` low bits with position + cnt tied to the length by a relation
+            elem = {'8': 1, '16': 2, '32': 4, '64': 8}.get((re.search(r'(8|16|32|64)$', acc.insn.mn) or [None, None])[1] if re.search(r'(8|16|32|64)$', acc.insn.mn) else None)
+            cnt = st.km.get(mk.group(1))
+            m = acc.mem
+            fst = self.fl.IN.get(a)
+            idx = [REG64[x][0] for x in (m['base'], m['index']) if x in REG64 and fst.get(REG64[x][0], ('SC',))[0] != 'P']
+            ptr = [fst.get(REG64[x][0]) for x in (m['base'], m['index']) if x in REG64 and fst.get(REG64[x][0], ('SC',))[0] == 'P']
+            hi_ok = False
+            if elem == 1 and cnt and len(idx) == 1 and len(ptr) == 1 and (m['scale'] or 1) == 1 and ptr[0][2] is not None and ptr[0][2][1] == 0:
+                key = tuple(sorted((idx[0], cnt)))
+                S = st.rel.get(key)
+                if S is not None:
+                    c = (m['disp'] or 0) + ptr[0][2][0]
+                    hi_ok = le((S[0] + c, S[1]), length, st.nlo)
+                cb = st.r.get(cnt, TOPB)
+                if not hi_ok and cb.hi:
+                    hi_ok = any(le((u[0] + v[0], u[1] + v[1]), length, st.nlo) for u in off.hi for v in cb.hi)
+            return ('in' if lo_ok and hi_ok else 'unknown'), (off, st.nlo, st.nmod, lo_ok, hi_ok)
         hi_ok = any(le((u[0] + W, u[1]), length, st.nlo) for u in off.hi)
         return ('in' if lo_ok and hi_ok else 'unknown'), (off, st.nlo, st.nmod, lo_ok, hi_ok)
 
@@ -630,9 +743,8 @@ NBUF_TAGS = {'ARRAY[]', 'SRCARR[]', 'DESTARR[]', 'SRC', 'DEST', 'BUF'}
 # every access of these kernels is required to be proved.  The others use idioms the domain does not express; they are
 # listed with the reason and only reported as not decided.
 OUTSIDE = {
-    r'^gf_\dvect_(dot_prod|mad)_avx(2|512)_gfni$|^gf_vect_(dot_prod|mad)_avx(2|512)_gfni$': 'length is counted down while the position is counted up (pos + len\' = len is a relation between two registers) and the tail uses a k-mask / byte-granular loads built from the remaining length',
-    r'^gf_vect_dot_prod_avx512$': 'a 32-byte tail block reuses the 64-byte loop with len re-biased (relation between two registers)',
-    r'^mem_zero_detect_avx(2|512)$': 'pointer-bump loops with the remaining length in a second register; tail through a k-mask',
+    r'^gf_\dvect_mad_avx2_gfni$|^gf_vect_mad_avx2_gfni$': 'the tail loads and stores single bytes / words through a pointer advanced by data-dependent amounts (simd_load_avx2 / simd_store_avx2 macros); the 32-byte main loop of these kernels is proved, the tail is not',
+    r'^mem_zero_detect_avx512$': 'the first, alignment-dependent block is read through a k-mask whose bit count is min(64 - (src & 63), len): a relation between the address and the length',
 }
 
 
@@ -657,7 +769,7 @@ def check(rep, families, suffix, floor):
             continue
         why = outside_reason(sym)
         u, f = info['unit'], info['func']
-        if why:
+        if why and not re.search(r'mad_avx2_gfni$', sym):
             n_undecided += 1
             R.notes.append('%s: not decided (%s)' % (sym, why))
             continue
@@ -669,9 +781,6 @@ def check(rep, families, suffix, floor):
         for a in info['accesses']:
             if a.addr[0] != 'P' or provenance.base_tag(a.addr) not in NBUF_TAGS:
                 continue
-            if '{k' in a.insn.text:
-                nskip += 1
-                continue
             v, d = bd.verdict(a.insn.addr, a)
             if v is None:
                 nskip += 1
@@ -679,6 +788,9 @@ def check(rep, families, suffix, floor):
             if v == 'in':
                 nin += 1
                 R.ok(1)
+                continue
+            if why:
+                nskip += 1          # tail of a kernel whose main loop is inside the domain
                 continue
             off, nlo, nmod, lo_ok, hi_ok = d
             what = []
@@ -691,7 +803,9 @@ def check(rep, families, suffix, floor):
                    key='M-BOUNDS|%s|%s' % (sym, re.sub(r'\s+', ' ', a.insn.text)))
         if nin == 0:
             raise AnalysisBroken('%s: no access into a length-bounded buffer was recognised' % sym)
-        if sym.endswith(('6vect_mad_avx2', 'pq_gen_avx2', 'gf_vect_mul_sse', 'mem_zero_detect_sse')):
+        if why:
+            R.notes.append('%s: main loop proved (%d accesses); %d tail accesses not decided (%s)' % (sym, nin, nskip, why))
+        if sym.endswith(('6vect_mad_avx2', 'pq_gen_avx2', 'gf_vect_mul_sse', 'mem_zero_detect_sse', '6vect_mad_avx512_gfni', '3vect_dot_prod_avx2_gfni')):
             R.notes.append('%s: %d accesses proved inside [0,len)%s' % (sym, nin, ', %d accesses through pointer arithmetic not decided' % nskip if nskip else ''))
     rep.analysed['bounds_kernels_not_decided_' + suffix] = n_undecided
     return R
